@@ -120,6 +120,16 @@ func cmdCheck(args []string) int {
 		results = append(results, r)
 		if r.Err == "" {
 			discharge(r.Obls, outDir, secs, 6)
+			// a solver timeout is not a verdict: retry undecided obligations once with three times the budget
+			var again []*Obl
+			for _, o := range r.Obls {
+				if !o.ExpectSat && o.Status == "unknown" {
+					again = append(again, o)
+				}
+			}
+			if len(again) > 0 {
+				discharge(again, outDir, 3*secs, 4)
+			}
 		}
 	}
 	violations, undecided := 0, 0
